@@ -1,6 +1,6 @@
 (* C02 - decompiled Lingo denotes the compiled statements and expressions.  Property theorems only. *)
 From Coq Require Import ZArith List String.
-From DRX Require Import Py.PyBytes Model.LingoAst Model.LingoGen Model.LingoOps Model.LingoLoop Spec.SpecLingo Proofs.LingoExecFacts Proofs.LingoStmtFacts.
+From DRX Require Import Py.PyBytes Model.LingoAst Model.LingoGen Model.LingoOps Model.LingoLoop Spec.SpecLingo Spec.SpecText Proofs.LingoExecFacts Proofs.LingoStmtFacts Proofs.LingoTextFacts.
 Import ListNotations.
 Open Scope Z_scope.
 
@@ -42,3 +42,12 @@ Theorem C02_straight_line_handler :
       f_globals (m_fn m') = add_globals (f_globals (m_fn m)) (globals_body en off l) /\ m_stack m' = [].
 Proof. exact straight_handler. Qed.
 Print Assumptions C02_straight_line_handler.
+
+(* Text: the Lingo emitted for the decompiled tree of any expression of the core families is the rendering of
+   the canonical token list pp_tok e of the SOURCE expression (full parenthesisation of binary operators,
+   arguments and list elements in source order, 'sprite a intersects b', '-(...)' only where a second minus
+   would follow, name() for an external call without arguments).  LINGO_BIN_OP is the regenerated table. *)
+Theorem C02_emitted_text_is_canonical :
+  forall en e, text_ok en e -> forall pc ind, gen_lingo (reify_e en pc e) ind = render en (pp_tok en e).
+Proof. exact gen_lingo_is_render. Qed.
+Print Assumptions C02_emitted_text_is_canonical.
